@@ -96,6 +96,11 @@ CLAIMED = {
    note="Equality of the iterative strided loop and the block-recursive butterfly is checked by execution on every case, not proved. log2 and float rounding in entropy/influence not modelled (partial w.r.t. floats). No axioms.",
    technique="Coq induction over the first qubit (block recursion) + exact dyadic comparison with the implementation",
    design="6 C13"),
+ "C16": dict(
+   text="Partial proof + dense exploration. Model/Quadratic.v: Q_{C,L} over components of the commutator graph and commutants, the twirl with exact rational coefficients. Proved for every n: symmetries from different components or different linear symmetries have disjoint Pauli supports and are trace-orthogonal (C16_orthogonal_partial, from trace orthogonality of Pauli matrices). Per run, on collections of <=2 generators at n<=2 (n=3 thorough): basis as term dictionaries vs the model; invariance under g(x)1+1(x)g, orthogonality and non-vanishing exactly on dense matrices; count vs commutant dimension by a rank computation; twirl coefficients vs exact rationals; linearity, idempotence, fixing the basis, invariant output, orthogonal residual (dense, 1e-9).",
+   note="Not proved: invariance, completeness (basis theorem of arXiv:2502.16404; per-input floating-point rank, n<=2) and the projector laws of the twirl (checked densely per input): partial. No axioms.",
+   technique="Coq orthogonality proof (disjoint supports) + exact/dense per-input validation of the remaining clauses",
+   design="6 C16"),
  "C04": dict(
    text="Proof: Coq theorems C04_product/commute/adjoint/conj/reject hold for every n and every pair of strings, about a bit-level model of PauliString.sign/commutes_with/multiply/adjoint_map/complex_conj and the Kronecker-product matrices over Z[i]. The model is tied to /repo on every run by a correspondence run: all 16^n pairs n<=3 (n<=4 thorough) plus random pairs up to n=64 and all length mismatches, implementation vs extracted model, and numpy matrices multiplied out for n<=3.",
    note="Trusted: Coq kernel, extraction (ExtrOcamlBasic), OCaml driver, Python harness; numpy kron/@ taken as the matrices. No axioms (Print Assumptions: closed).",
